@@ -235,7 +235,12 @@ func (d *Decoder) ReadNatural() (uint64, error) {
 		return uint64(prefix), nil
 	}
 	if prefix == 0xFF {
-		return d.ReadU64()
+		// the 9-byte form is only the encoding of values >= 2^56
+		v, err := d.ReadU64()
+		if err == nil && v < uint64(1)<<56 {
+			return 0, fmt.Errorf("telemetry: natural value %d not minimal in 0xFF form", v)
+		}
+		return v, err
 	}
 	// l in 1..7. Range size is 1 << (7-l); base is 256 - (1 << (8-l)).
 	for l := uint(1); l <= 7; l++ {
